@@ -38,6 +38,20 @@ Deliberately permissive (the statement can be read two ways / is silent):
 A relation between two pycel results is reported only when neither operand already failed the
 reference model (then it would be the same mechanism twice); the counters ``law:*`` show every
 relation that was evaluated.
+
+Workload = exhaustive() (small rectangles over the whole pool, same for every seed) + fixed()
+(every shape x fill class x reps, contents from the shard's rng; size independent of the clock; all
+floors are reached by these two alone) + sampled() (until the budget ends).
+
+Mechanism keys (``diagnose``): FUNC/<predicate> where the predicate is one of - raises-<Exception>/
+<input class>; result-type-<type>; last-error-returned / not-the-first-error / error-code-not-present
+/ error-cells-ignored (input has error cells); SUMPRODUCT: mismatched-shapes-not-#VALUE!,
+single-cell-ranges/<kind>-cell (worksheet path, every range 1x1), integer-result-beyond-int64 (all
+numeric cells are ints and the true result needs more than 64 bits); SUBTOTAL/code-n-differs-from-FUNC
+(the named function, same ranges, same workbook, is right); affected-by-<kinds>-cells /
+wrong-on-plain-numbers: decided by a fixed probe battery (``battery``: FUNC over (7, v, 5) and
+(-7, v, -5) for v in TRUE, "3", blank, "x") so that the key depends on the implementation's rule and
+not on what else the failing range contained; else wrong-value/<input class>.  LAW/... for relations.
 """
 import itertools
 from fractions import Fraction
@@ -60,7 +74,7 @@ RULE = ('rectangles 1x1..5x5 (all 25 shapes) filled from pools of numbers (exact
         'scenario (all formulas over one set of rectangles); non-trivial = the ranges hold a cell that '
         'is not a plain number or at least two numeric cells; distinct by (kind, path, cell contents, '
         'permutation, partition, worksheet options).')
-BUDGET = {'quick': 20, 'thorough': 180}
+BUDGET = {'quick': 15, 'thorough': 180}
 # every floor is below what the clock-independent part of the workload (exhaustive() + fixed())
 # delivers on its own, so a loaded machine cannot make a run inconclusive
 FLOORS = {
